@@ -377,7 +377,7 @@ class Unit:
         verify = set(fcfg.get('verify', []))
         stub = set(fcfg.get('stub', []))
         sel = fcfg.get('items')      # None => all plain items
-        drop_use = list(DEFAULT_DROP_USE) + fcfg.get('drop_use', []) + (fspec.drop_use if fspec else [])
+        drop_use = list(DEFAULT_DROP_USE) + ([] if fcfg.get('drop_use_reset') else fcfg.get('drop_use', [])) + (fspec.drop_use if fspec else [])
         counts = []
         file_rewrites = []
         for rule, count, rx, repl, no in (fspec.rewrites if fspec else []):
@@ -455,9 +455,11 @@ class Unit:
             for s in sel:
                 if s not in names:
                     raise LostAnchor('%s: item not found: %s' % (repo_file, s))
+        nontest = '\n'.join(it.full_text for it in items if not it.is_test)
         for rule, count, cnt, rx in counts:
-            if count != 0 and cnt[0] != count:
-                raise LostAnchor('%s: rewrite %s /%s/ expected %d matches, found %d' % (repo_file, rule, rx, count, cnt[0]))
+            n = len(re.findall(rx, nontest, flags=re.S))
+            if count != 0 and n != count:
+                raise LostAnchor('%s: rewrite %s /%s/ expected %d matches in the file, found %d' % (repo_file, rule, rx, count, n))
         # raw blocks
         if fspec and not fcfg.get('no_raw'):
             for blk in fspec.raw:
@@ -481,6 +483,9 @@ class Unit:
         for sh in self.cfg.get('shims', []):
             p = os.path.join(self.verif, sh)
             txt = open(p).read()
+            def proved_in(mo):
+                return '' if mo.group(1) == self.name else '#[verifier::external_body] '
+            txt = re.sub(r'/\*PROVED_IN:(\w+)\*/ ', proved_in, txt)
             em.emit('// ---- shim %s\n' % sh, ('gen', None, 0))
             em.emit(txt + '\n', ('shim', sh, 1))
         # module tree
@@ -491,7 +496,7 @@ class Unit:
                 node = node.setdefault('mods', {}).setdefault(seg, {})
             node.setdefault('files', []).append(repo_file)
         mod_prelude = self.cfg.get('module_prelude',
-            '#[allow(unused_imports)] use vstd::prelude::*;\n#[allow(unused_imports)] use crate::{pnet, log};\n#[allow(unused_imports)] use crate::shim::*;\n#[allow(unused_imports)] use crate::{World, Ev, Layer, Verb};\n#[allow(unused_imports)] use crate::pnet::cksum::*;\n#[allow(unused_imports)] use crate::pnet::pspec::*;\n#[allow(unused_imports)] use crate::pnet::util::{mac_bytes, mac_at};\n#[allow(unused_imports)] use crate::client::*;\n#[allow(unused_imports)] use crate::evspec::*;\n#[allow(unused_imports)] use crate::appspec::*;\n#[allow(unused_imports)] use crate::cfgspec::*;\nbroadcast use {crate::evspec::group_events, crate::shim::group_ip_axioms, crate::shim::axiom_ipaddr_key_model, crate::pnet::util::axiom_macaddr_key_model, vstd::std_specs::hash::group_hash_axioms};\n')
+            '#[allow(unused_imports)] use vstd::prelude::*;\n#[allow(unused_imports)] use crate::{pnet, log};\n#[allow(unused_imports)] use crate::shim::*;\n#[allow(unused_imports)] use crate::{World, Ev, Layer, Verb};\n#[allow(unused_imports)] use crate::pnet::cksum::*;\n#[allow(unused_imports)] use crate::pnet::pspec::*;\n#[allow(unused_imports)] use crate::pnet_lemmas::*;\n#[allow(unused_imports)] use crate::pnet::util::{mac_bytes, mac_at};\n#[allow(unused_imports)] use crate::client::*;\n#[allow(unused_imports)] use crate::evspec::*;\n#[allow(unused_imports)] use crate::appspec::*;\n#[allow(unused_imports)] use crate::cfgspec::*;\n#[allow(unused_imports)] use crate::tcpspec::*;\n#[allow(unused_imports)] use crate::tcbspec::*;\nbroadcast use {crate::evspec::group_events, crate::shim::group_ip_axioms, crate::shim::axiom_ipaddr_key_model, crate::pnet::util::axiom_macaddr_key_model, vstd::std_specs::hash::group_hash_axioms, crate::tcbspec::axiom_base_state_ok, crate::pnet_lemmas::group_pnet_fields};\n')
         def emit_node(node, depth, path=()):
             for f in node.get('files', []):
                 em.emit('// ---- extracted from %s\n' % f, ('gen', None, 0))
